@@ -1,2 +1,111 @@
-(* Properties_C09.v — placeholder, theorems follow *)
-From Romea Require Import Num NormalsModel.
+(* Properties_C09.v — C09: normal and curvature estimation (NormalAndCurvatureEstimation.cpp).
+   The eigen-solver is an oracle [eig]; every theorem carries its contract [eig_contract] as a hypothesis
+   about the one call the code makes (on the covariance of the neighbours).  [old_rule = false] is the code as
+   it is now (flip test on the Cartesian parts), [old_rule = true] the original flip rule.
+   Only statements, each closed by [exact <lemma>] and followed by Print Assumptions. *)
+From Coq Require Import Reals ZArith List Bool Arith Lra Lia.
+From Romea Require Import Num NumR NormalsModel NormalsProofs.
+Import ListNotations.
+Local Open Scope R_scope.
+
+(* the Cartesian part of the written normal has unit length *)
+Theorem C09_normal_unit : forall eig dim size p nb normal_in,
+  dim = 2%nat \/ dim = 3%nat ->
+  eig_contract dim (covariance ROps dim size nb) (eig (covariance ROps dim size nb)) ->
+  let n := firstn dim (e_normal (estimate_point ROps eig false dim size p nb normal_in)) in
+  vdot ROps n n = 1.
+Proof. exact normal_unit. Qed.
+Print Assumptions C09_normal_unit.
+
+(* ... and points toward the sensor (origin): n . p_cart <= 0, for every p (also p = 0), every point size *)
+Theorem C09_normal_faces_sensor : forall eig dim size p nb normal_in,
+  dim = 2%nat \/ dim = 3%nat ->
+  eig_contract dim (covariance ROps dim size nb) (eig (covariance ROps dim size nb)) ->
+  let n := firstn dim (e_normal (estimate_point ROps eig false dim size p nb normal_in)) in
+  vdot ROps n (firstn dim p) <= 0.
+Proof. exact normal_faces_sensor. Qed.
+Print Assumptions C09_normal_faces_sensor.
+
+(* the original rule (test on the full homogeneous vectors, caller's w = 1) violates it *)
+Theorem C09_normal_flip_homog_refuted :
+  exists (eig : list (list R) -> list R * list (list R)) dim size p nb normal_in,
+    eig_contract dim (covariance ROps dim size nb) (eig (covariance ROps dim size nb)) /\
+    (size = S dim /\ length p = size /\ vcoord ROps p dim = 1 /\
+     Forall (fun q => length q = size /\ vcoord ROps q dim = 1) nb) /\
+    normal_in = [0; 0; 0; 1] /\
+    vdot ROps (firstn dim (e_normal (estimate_point ROps eig true dim size p nb normal_in))) (firstn dim p) > 0.
+Proof. exact normal_flip_homog_refuted. Qed.
+Print Assumptions C09_normal_flip_homog_refuted.
+
+(* the normal is the direction of least variance: n^T C n = lambda_0 <= x^T C x for every unit x *)
+Theorem C09_normal_least_variance : forall eig dim size p nb normal_in,
+  dim = 2%nat \/ dim = 3%nat ->
+  eig_contract dim (covariance ROps dim size nb) (eig (covariance ROps dim size nb)) ->
+  let C := covariance ROps dim size nb in
+  let e := estimate_point ROps eig false dim size p nb normal_in in
+  let n := firstn dim (e_normal e) in
+  quad dim C n = vcoord ROps (e_lambda e) 0 /\
+  forall x, length x = dim -> vdot ROps x x = 1 -> vcoord ROps (e_lambda e) 0 <= quad dim C x.
+Proof. exact normal_least_variance. Qed.
+Print Assumptions C09_normal_least_variance.
+
+(* what x^T C x is: the mean square deviation of the neighbours from their mean along x
+   ([lsum g l] = fold_right Rplus 0 (map g l); no hypothesis on the neighbour list is needed) *)
+Theorem C09_quad_cov_is_variance : forall dim size nb x,
+  dim = 2%nat \/ dim = 3%nat -> length x = dim ->
+  quad dim (covariance ROps dim size nb) x =
+  lsum (fun q => (vdot ROps (firstn dim (vsub ROps q (mean ROps size nb))) x) ^ 2) nb / INR (length nb).
+Proof. exact quad_cov_is_variance. Qed.
+Print Assumptions C09_quad_cov_is_variance.
+
+Theorem C09_quad_cov_nonneg : forall dim size nb x,
+  dim = 2%nat \/ dim = 3%nat -> length x = dim -> 0 <= quad dim (covariance ROps dim size nb) x.
+Proof. exact quad_cov_nonneg. Qed.
+Print Assumptions C09_quad_cov_nonneg.
+
+(* curvature = lambda_0 / sum(lambda) lies in [0, 1/dim] whenever the sum is positive (otherwise the C++ divides 0 by 0) *)
+Theorem C09_curvature_range : forall eig dim size p nb normal_in,
+  dim = 2%nat \/ dim = 3%nat ->
+  eig_contract dim (covariance ROps dim size nb) (eig (covariance ROps dim size nb)) ->
+  let e := estimate_point ROps eig false dim size p nb normal_in in
+  0 < vsum ROps (e_lambda e) -> 0 <= e_curvature e <= 1 / INR dim.
+Proof. exact curvature_range. Qed.
+Print Assumptions C09_curvature_range.
+
+(* neighbours in a common hyperplane m . x = c (|m| = 1), not all on a lower-dimensional set (lambda_1 > 0):
+   the normal is exactly +-m and the curvature exactly 0 *)
+Theorem C09_planar_exact : forall eig dim size p nb normal_in m c,
+  dim = 2%nat \/ dim = 3%nat ->
+  eig_contract dim (covariance ROps dim size nb) (eig (covariance ROps dim size nb)) ->
+  (forall q, In q nb -> length q = size) ->
+  length m = dim -> vdot ROps m m = 1 ->
+  (forall q, In q nb -> vdot ROps m (firstn dim q) = c) ->
+  let e := estimate_point ROps eig false dim size p nb normal_in in
+  let n := firstn dim (e_normal e) in
+  0 < vcoord ROps (e_lambda e) 1 ->
+  (n = m \/ n = map Ropp m) /\ e_curvature e = 0.
+Proof. exact planar_exact. Qed.
+Print Assumptions C09_planar_exact.
+
+(* --- non-vacuity: the contract is satisfiable on a concrete cloud, and the theorems apply to it --- *)
+Example C09_contract_satisfiable :
+  eig_contract 3 (covariance ROps 3 4 wit_nb) (wit_eig (covariance ROps 3 4 wit_nb)).
+Proof. exact wit_contract. Qed.
+
+Example C09_repaired_rule_on_witness :
+  vdot ROps (firstn 3 (e_normal (estimate_point ROps wit_eig false 3 4 wit_p wit_nb [0; 0; 0; 1]))) (firstn 3 wit_p) <= 0.
+Proof. apply C09_normal_faces_sensor; [right; reflexivity|exact C09_contract_satisfiable]. Qed.
+
+Example C09_planar_on_witness :
+  let e := estimate_point ROps wit_eig false 3 4 wit_p wit_nb [0; 0; 0; 1] in
+  (firstn 3 (e_normal e) = [0; 0; 1] \/ firstn 3 (e_normal e) = map Ropp [0; 0; 1]) /\ e_curvature e = 0.
+Proof.
+  apply (C09_planar_exact wit_eig 3 4 wit_p wit_nb [0; 0; 0; 1] [0; 0; 1] (-1/2)).
+  - right; reflexivity.
+  - exact C09_contract_satisfiable.
+  - intros q [<-|[<-|[<-|[<-|[]]]]]; reflexivity.
+  - reflexivity.
+  - cbn; lra.
+  - intros q [<-|[<-|[<-|[<-|[]]]]]; cbn; lra.
+  - cbn; lra.
+Qed.
